@@ -419,7 +419,7 @@ func Minimise(sc *Scenario, key string, maxRuns int, maxDur time.Duration) (*Sce
 
 // ---------------------------------------------------------------- sites
 
-var frameRe = regexp.MustCompile(`(?m)^github\.com/glycerine/zygomys/v9/zygo\.([^\s(]+(?:\([^)]*\))?[^\s(]*)\(`)
+var frameRe = regexp.MustCompile(`(?m)^github\.com/glycerine/zygomys/v9/zygo\.((?:\(\*?\w+\)\.)?[\w]+)`)
 
 // PanicSite extracts the innermost zygo function from a Go stack trace
 // (no line numbers, so it is stable under unrelated edits).
@@ -429,8 +429,6 @@ func PanicSite(stack string) string {
 		if strings.Contains(fn, "Verif") || strings.Contains(fn, "verif") {
 			continue
 		}
-		// closures: keep enclosing function
-		fn = regexp.MustCompile(`\.func\d+(\.\d+)*$`).ReplaceAllString(fn, "")
 		return fn
 	}
 	return "unknown"
